@@ -15,7 +15,7 @@ def register(area, *fns):
 
 register("hasher", "hasher", "entries")
 register("v2", "hasher_v2", "hasher_hybrid", "file_hasher", "merkle_root", "bep52")
-register("bencode", "encode", "pydecode", "strict", "sortkeys")
+register("bencode", "roundtrip", "strict", "sortkeys")
 register("recheck", "feed", "hashcheck")
 register("rebuild", "map_pieces")
 register("edit", "edit", "magnet", "quote", "unquote")
